@@ -15,7 +15,7 @@ CONSTANTS
   Fam = {"op", "debug", "stats", "close"}
   OpShapes <- OpsHttpLast
   MaxConn = 1
-  MaxSteps = 6
+  MaxSteps = 7
   GenDepth = 0
   Advs = {0, 2}
   Lens <- LensSmall
